@@ -70,7 +70,7 @@ func famqSystem(c *Ctx) {
 	}
 	if c.wants("C21") {
 		// a store whose requests honour the context, the query ended while a read is in flight
-		for i := 0; i < c.pick(12, 120); i++ {
+		for i := 0; i < c.pick(15, 150); i++ {
 			add("inread")
 		}
 	}
